@@ -5,6 +5,7 @@ on a scripted stream (its ``open``, cleanup table, ``signal``, ``sys`` and ``war
 substituted), every transition is compared with a reference model of the documented counting
 rule, and end-of-file is delivered after every explored history."""
 import collections
+import io
 import sys
 import time
 import types
@@ -109,23 +110,46 @@ class Harness:
             return f
 
         class F:
+            """The request stream with the semantics of the real open(): a binary reader, or
+            a text reader (decoding, universal newlines) when the mode asks for one; one
+            readline() = one request consumed."""
+
+            def __init__(s, mode="r", buffering=-1, encoding=None, errors=None, newline=None,
+                         closefd=True, opener=None):
+                raw = io.BytesIO(b"".join(lines))
+                s.inner = raw if "b" in mode else io.TextIOWrapper(
+                    raw, encoding=encoding, errors=errors, newline=newline)
+                s.empty = b"" if "b" in mode else ""
+
             def __enter__(s):
                 return s
 
             def __exit__(s, *a):
                 return False
 
-            def readline(s):
+            def close(s):
+                pass
+
+            def readline(s, *a):
                 # registry of the caller = the loop's only surviving variable
                 fr = sys._getframe(1)
+                if fr.f_code.co_name == "__next__":
+                    fr = fr.f_back
                 reg = fr.f_locals.get("registry")
                 if 0 <= cur["i"] < len(lines) and reg is not None:
                     obs["registry"][cur["i"]] = {t: dict(reg.get(t, {})) for t in TYPES}
                 cur["i"] += 1
                 obs["consumed"] = cur["i"]
-                if cur["i"] < len(lines):
-                    return lines[cur["i"]]
-                return b""
+                return s.inner.readline(*a)
+
+            def __iter__(s):
+                return s
+
+            def __next__(s):
+                line = s.readline()
+                if line == s.empty:
+                    raise StopIteration
+                return line
 
         def hook(*a):
             if 0 <= cur["i"] < len(lines):
@@ -142,7 +166,7 @@ class Harness:
             if self.warn_raises and "leaked" in str(m):
                 raise UserWarning(str(m))        # what -W error makes of it
         fwarn = types.SimpleNamespace(warn=_warn)
-        rt.__dict__["open"] = lambda fd, mode="rb": F()
+        rt.__dict__["open"] = lambda fd, *a, **k: F(*a, **k)
         rt.sys, rt.signal, rt.warnings = fsys, fsig, fwarn
         funcs = rt._CLEANUP_FUNCS
         funcs.clear()
